@@ -71,6 +71,10 @@ type topoState struct {
 	// filterOn: the session has a host filter that rejects the addresses 10.0.0.x with
 	// x = 2 mod 3 (never the first contact point)
 	filterOn bool
+	// noLookup: DisableInitialHostLookup; until the first refresh the session knows its
+	// contact points only, under ids of its own making
+	noLookup     bool
+	firstRefresh bool
 	// ownRow: every node lists itself among its peers
 	ownRow bool
 	// reconnTicker: the session retries nodes it holds for down (ReconnectInterval > 0): a
@@ -171,6 +175,18 @@ func runTopo(e *Env) {
 		k.Fault("topo.host-filter")
 	}
 	e.Note("hostFilter", st.filterOn)
+	if !st.filterOn && tp.Chance(1, 8) {
+		// the session is told not to look the cluster up at start: it begins with its contact
+		// points (every initial node) and learns the rest from the first refresh
+		st.noLookup = true
+		cfg.DisableInitialHostLookup = true
+		cfg.Hosts = nil
+		for _, h := range cl.Hosts {
+			cfg.Hosts = append(cfg.Hosts, h.Addr)
+		}
+		k.Fault("topo.initial-host-lookup-disabled")
+	}
+	e.Note("noInitialLookup", st.noLookup)
 	if !e.NoFaults && tp.Chance(1, 5) {
 		st.ownRow = true
 		k.Fault("topo.node-lists-itself-among-its-peers")
@@ -292,7 +308,9 @@ func runTopo(e *Env) {
 		k.SettleUntil(d, 50*time.Millisecond, pump, func() bool { return false })
 	}
 	settle(3 * time.Second)
-	st.compare("after boot")
+	if !st.noLookup {
+		st.compare("after boot")
+	}
 
 	nSteps := 3 + tp.Next(8)
 	if e.NoFaults {
@@ -328,6 +346,10 @@ func runTopo(e *Env) {
 			ws = []int{1, 0, 0, 0, 0, 0, 0, 0, 1, 0, 0, 0, 0, 0, 0, 0, 0}
 		}
 		peersBefore := cl.PeerQueries
+		preDown := map[string]bool{} // reported down before this step
+		for a := range st.down {
+			preDown[a] = true
+		}
 		switch tp.Weighted(ws) {
 		case 0: // a node joins
 			h := st.newHost()
@@ -662,7 +684,20 @@ func runTopo(e *Env) {
 		}
 		// settle: both debounce windows (1 s + 1 s), reconnects, pool fills
 		settle(6 * time.Second)
-		st.compare(fmt.Sprintf("after step %d", step))
+		if st.noLookup && !st.firstRefresh && cl.PeerQueries > 0 {
+			// the first refresh replaces every contact point (known under an id of the session's
+			// making) by the node the cluster reports: new hosts, connected afresh, to which
+			// earlier DOWN reports no longer apply
+			st.firstRefresh = true
+			for addr := range preDown {
+				if !st.unreach[addr] {
+					delete(st.down, addr)
+				}
+			}
+		}
+		if !st.noLookup || cl.PeerQueries > 0 {
+			st.compare(fmt.Sprintf("after step %d", step))
+		}
 		k.OpDone()
 	}
 
